@@ -18,8 +18,8 @@ MANIFEST = {
                  "C19_rwlock_writer_admitted_only_when_free", "C19_rwlock_writer_excludes_all", "C19_rwlock_readers_share",
                  "C19_rwlock_unlimited_readers_branch", "C19_rlock_only_holder_reenters", "C19_rlock_balanced_unlocks",
                  "C19_prioritylock_exclusive", "C19_prioritylock_queue_head_is_max",
-                 "C19_prioritylock_handover_refuted_newcomer_window",
-                 "C19_event_wait_admission"],
+                 "C19_prioritylock_handover_newcomer_window",
+                 "C19_event_wait_admission", "C19_event_wait_wake_pass"],
     "generated": ["coq/Gen/GenClient.v"],
     "harness": "harness/client",
     "ports": "127.0.0.1:15600-15699",
@@ -178,8 +178,8 @@ def run(ctx):
 
     # 4. scenarios
     if getattr(ctx, "replay", None):
-        d = json.load(open(ctx.replay))
-        sc = dict(d["replay"]["params"])
+        d = json.load(open(ctx.replay))            # a replays/C19-*.json file or a corpus/C19/*.json file
+        sc = dict((d.get("replay") or d)["params"])
         batches = [[dict(sc, id="replay-%d" % i) for i in range(5)]]
     else:
         batches = plan(ctx, tier)
